@@ -123,3 +123,40 @@ def relational():
         post_tags.create(engine())
         _REL_READY = True
     return {"City": City, "Person": Person, "Blog": Blog, "Tag": Tag, "Post": Post, "Comment": Comment, "post_tags": post_tags}
+
+
+# ---- alternate schema shapes (C04 layer "alternate-schema"), see vt_dj/models.py
+class Node(Base):
+    __tablename__ = "sa_node"
+    id = sa.Column(sa.Integer, primary_key=True)
+    code = sa.Column(sa.String, nullable=False, unique=True)
+    items = relationship("Item", back_populates="node")
+    extra = relationship("Extra", back_populates="node", uselist=False)
+
+
+class Item(Base):
+    __tablename__ = "sa_item"
+    id = sa.Column(sa.Integer, primary_key=True)
+    name = sa.Column(sa.String, nullable=False)
+    node_code = sa.Column(sa.String, sa.ForeignKey("sa_node.code"))
+    node = relationship("Node", back_populates="items")
+
+
+class Extra(Base):
+    __tablename__ = "sa_extra"
+    id = sa.Column(sa.Integer, primary_key=True)
+    note = sa.Column(sa.String, nullable=False)
+    node_id = sa.Column(sa.Integer, sa.ForeignKey("sa_node.id"), nullable=False, unique=True)
+    node = relationship("Node", back_populates="extra")
+
+
+_ALT_READY = False
+
+
+def alternate():
+    global _ALT_READY
+    if not _ALT_READY:
+        for cls in (Node, Item, Extra):
+            cls.__table__.create(engine())
+        _ALT_READY = True
+    return {"Node": Node, "Item": Item, "Extra": Extra}
